@@ -7,6 +7,8 @@ import (
 	"fmt"
 	"io"
 	"io/fs"
+	"sort"
+	"strings"
 	"time"
 )
 
@@ -80,12 +82,115 @@ func (f *FS) Open(name string) (fs.File, error) {
 	}
 	data, ok := f.Files[name]
 	if !ok {
+		if ents := f.dirEntries(name); ents != nil {
+			f.rec("Open", name, nil, len(ents))
+			return &dir{fs: f, name: name, ents: ents}, nil
+		}
 		err := &fs.PathError{Op: "open", Path: name, Err: fs.ErrNotExist}
 		f.rec("Open", name, err, 0)
 		return nil, err
 	}
 	f.rec("Open", name, nil, len(data))
 	return &file{fs: f, name: name, data: data}, nil
+}
+
+// dirEntries returns the entries of the directory name ("." is the root),
+// sorted by name, or nil if no file lies below it.
+func (f *FS) dirEntries(name string) []fs.DirEntry {
+	prefix := name + "/"
+	if name == "." {
+		prefix = ""
+	}
+	seen := map[string]bool{}
+	var ents []fs.DirEntry
+	for n, data := range f.Files {
+		if !strings.HasPrefix(n, prefix) {
+			continue
+		}
+		rest := n[len(prefix):]
+		if i := strings.IndexByte(rest, '/'); i >= 0 {
+			if d := rest[:i]; !seen[d] {
+				seen[d] = true
+				ents = append(ents, dirEntry{info{name: d, dir: true}})
+			}
+		} else if !seen[rest] {
+			seen[rest] = true
+			ents = append(ents, dirEntry{info{name: rest, size: int64(len(data))}})
+		}
+	}
+	sort.Slice(ents, func(i, j int) bool { return ents[i].Name() < ents[j].Name() })
+	return ents
+}
+
+type dirEntry struct{ i info }
+
+func (d dirEntry) Name() string               { return d.i.name }
+func (d dirEntry) IsDir() bool                { return d.i.dir }
+func (d dirEntry) Type() fs.FileMode          { return d.i.Mode().Type() }
+func (d dirEntry) Info() (fs.FileInfo, error) { return d.i, nil }
+
+// dir is an open directory (fs.ReadDirFile).
+type dir struct {
+	fs   *FS
+	name string
+	ents []fs.DirEntry
+	off  int
+}
+
+func (d *dir) Stat() (fs.FileInfo, error) {
+	if k := d.fs.fault(); k == "error" || k == "notfound" {
+		err := &fs.PathError{Op: "stat", Path: d.name, Err: d.fs.ErrInject}
+		d.fs.rec("Stat", d.name, err, 0)
+		return nil, err
+	}
+	d.fs.rec("Stat", d.name, nil, 0)
+	return info{name: d.name, dir: true}, nil
+}
+
+func (d *dir) Read([]byte) (int, error) {
+	err := &fs.PathError{Op: "read", Path: d.name, Err: errors.New("is a directory")}
+	d.fs.rec("Read", d.name, err, 0)
+	return 0, err
+}
+
+func (d *dir) ReadDir(n int) ([]fs.DirEntry, error) {
+	switch k := d.fs.fault(); k {
+	case "error", "notfound":
+		err := &fs.PathError{Op: "readdir", Path: d.name, Err: d.fs.ErrInject}
+		if k == "error" {
+			// not the "readdir" operation the loader treats as "no such
+			// package": a plain I/O error
+			err.Op = "read"
+		}
+		d.fs.rec("ReadDir", d.name, err, 0)
+		return nil, err
+	case "short", "zero", "eof-with-data":
+		// a short listing: the first entry only (then the rest)
+		if n <= 0 && len(d.ents)-d.off > 1 {
+			out := d.ents[d.off : d.off+1]
+			d.off++
+			d.fs.rec("ReadDir", d.name, nil, 1)
+			return out, nil
+		}
+	}
+	rest := d.ents[d.off:]
+	if n > 0 {
+		if len(rest) == 0 {
+			d.fs.rec("ReadDir", d.name, io.EOF, 0)
+			return nil, io.EOF
+		}
+		if n < len(rest) {
+			rest = rest[:n]
+		}
+	}
+	d.off += len(rest)
+	d.fs.rec("ReadDir", d.name, nil, len(rest))
+	return rest, nil
+}
+
+func (d *dir) Close() error {
+	d.fs.rec("Close", d.name, nil, 0)
+	return nil
 }
 
 type file struct {
@@ -98,13 +203,19 @@ type file struct {
 type info struct {
 	name string
 	size int64
+	dir  bool
 }
 
-func (i info) Name() string       { return i.name }
-func (i info) Size() int64        { return i.size }
-func (i info) Mode() fs.FileMode  { return 0o444 }
+func (i info) Name() string { return i.name }
+func (i info) Size() int64  { return i.size }
+func (i info) Mode() fs.FileMode {
+	if i.dir {
+		return fs.ModeDir | 0o555
+	}
+	return 0o444
+}
 func (i info) ModTime() time.Time { return time.Time{} }
-func (i info) IsDir() bool        { return false }
+func (i info) IsDir() bool        { return i.dir }
 func (i info) Sys() any           { return nil }
 
 func (fl *file) Stat() (fs.FileInfo, error) {
@@ -114,7 +225,7 @@ func (fl *file) Stat() (fs.FileInfo, error) {
 		return nil, err
 	}
 	fl.fs.rec("Stat", fl.name, nil, 0)
-	return info{fl.name, int64(len(fl.data))}, nil
+	return info{name: fl.name, size: int64(len(fl.data))}, nil
 }
 
 func (fl *file) Read(p []byte) (int, error) {
